@@ -85,6 +85,11 @@ def edited_programs(draw):
                     and other == STR:
                 EXCLUDED["no_number_right_of_str_plus"] = EXCLUDED.get("no_number_right_of_str_plus", 0) + 1
                 continue
+            # F10 again, one level down: a number in a branch of a Str-typed if-expression reaches the right of a Str `+` through it
+            if "no_number_right_of_str_plus" in SWITCHES and parent is not None and parent[0] == "ifx" and parent[1] == STR \
+                    and other != STR:
+                EXCLUDED["no_number_right_of_str_plus"] = EXCLUDED.get("no_number_right_of_str_plus", 0) + 1
+                continue
             # open finding F49: a Float / None bound of a range is accepted
             if "no_float_or_nullable_range_bound" in SWITCHES and parent is not None and parent[0] == "range" \
                     and other in (FLOAT, "none"):
